@@ -608,8 +608,8 @@ def gen_descriptors(tier, rng):
             Ms.insert(pos, g.arr((s[m2], J) if tr else (J, s[m2]), cplx)); modes.insert(pos, m2)
         yield D("multi_mode_dot", [g.arr(s, cplx)] + Ms, valid=ok, modes=modes, skip=None, transpose=tr, successive=True)
 
-    # size-1 mismatches (malformed: the operand does not fit its mode, no textbook value): the core backend rejects, under the
-    # einsum backend np.einsum BROADCASTS the size-1 axis (model: einsum_np) - known finding einsum_multi_mode_dot_size1_broadcast
+    # size-1 mismatches (malformed: the operand does not fit its mode): both backends reject (the einsum backend since /repo 8b25fc6;
+    # before, np.einsum broadcast the size-1 axis - model einsum_np, regression Example C02_multi_mode_dot_einsum_size1_before_8b25fc6)
     for _ in range(16 if quick else 80):
         s = tuple(rng.choice(dims) for _ in range(rng.randint(1, 3)))
         modes = sorted(rng.sample(range(len(s)), rng.randint(1, len(s))))
@@ -1026,37 +1026,7 @@ def _clf_einsum_repeated_modes(f):
     return len(set(res)) < len(res)
 
 
-def _clf_einsum_size1_broadcast(f):
-    """einsum multi_mode_dot accepting a malformed request whose only misfits are size-1 mismatches (operand axis of size 1 on a longer
-    mode, or a mode of size 1 under a longer operand axis) on pairwise distinct modes; every other failing input stays a VIOLATION"""
-    inp = f.get("inputs") or {}
-    o = inp.get("opts") or {}
-    arrs = [np.asarray(a) for a in (inp.get("arrays") or [])]
-    ms = o.get("modes")
-    if not (inp.get("fn") == "multi_mode_dot" and inp.get("backend") in ("einsum", "all") and inp.get("valid") is False and arrs):
-        return False
-    nd = arrs[0].ndim
-    ms = list(range(len(arrs) - 1)) if ms is None else list(ms)
-    seen, found = set(), False
-    for i, (m, a) in enumerate(zip(ms, arrs[1:])):
-        if i == o.get("skip"):
-            continue
-        if not isinstance(m, int) or not -nd <= m < nd or a.ndim not in (1, 2):
-            return False
-        m = m + nd if m < 0 else m
-        if m in seen:
-            return False
-        seen.add(m)
-        dim = a.shape[0] if a.ndim == 1 or o.get("transpose") else a.shape[1]
-        if dim != arrs[0].shape[m]:
-            if 1 not in (dim, arrs[0].shape[m]):
-                return False
-            found = True
-    return found
-
-
-CLASSIFIERS = {"einsum_multi_mode_dot_repeated_modes": _clf_einsum_repeated_modes,
-               "einsum_multi_mode_dot_size1_broadcast": _clf_einsum_size1_broadcast}
+CLASSIFIERS = {"einsum_multi_mode_dot_repeated_modes": _clf_einsum_repeated_modes}
 
 
 def entry_point(d, be):
